@@ -11,7 +11,9 @@
 (* Cell values are integers; NaN is the reserved integer NaN below.                        *)
 (*                                                                                         *)
 (* The PROPERTY (C18) reads "NaN counts as excluded when listed", i.e. naneq = TRUE.       *)
-(* The CODE tests `e == val` (IEEE: NaN equals nothing), i.e. naneq = FALSE.               *)
+(* _trim tests `e == val or (isnan(e) and isnan(val))`, i.e. naneq = TRUE (since the fix   *)
+(* 4e18dc9; before it tested the bare IEEE `e == val`, naneq = FALSE, under which a listed *)
+(* NaN is never excluded - kept as a negative twin).  _crop tests `v == val`.              *)
 EXTENDS Integers, Sequences, FiniteSets
 
 NaN == -99
